@@ -37,6 +37,8 @@ type Violation struct {
 	Model   map[string]string `json:"model"`
 	Inputs  []ModelInput      `json:"inputs"`
 	Known   string            `json:"known,omitempty"`
+	Decisions []int           `json:"decisions"`
+	Pkg     string            `json:"pkg"`
 	Extra   map[string]interface{} `json:"extra,omitempty"`
 }
 
@@ -73,6 +75,8 @@ type HarnessRun struct {
 	commits     int
 	known       []knownFinding
 	property    string
+	pins        map[string]string // replay: variable name -> SMT value
+	replayPath  []int
 	oblLabels   map[string]int
 	maxPaths    int
 	seenViol    map[string]bool
@@ -141,7 +145,7 @@ func (h *HarnessRun) violation(ex *Exec, label, msg string) {
 }
 
 func (h *HarnessRun) recordViolation(ex *Exec, label, msg string, extra *Term) {
-	v := &Violation{Harness: h.spec.Name, Label: label, Msg: msg, Pos: ex.posStr(), Trace: append([]string{}, ex.trace...)}
+	v := &Violation{Harness: h.spec.Name, Pkg: h.spec.Pkg, Label: label, Msg: msg, Pos: ex.posStr(), Trace: append([]string{}, ex.trace...), Decisions: append([]int{}, ex.dec...)}
 	key := label + "|" + msg + "|" + v.Pos
 	// violations are de-duplicated per known-finding class, so that a violation of the same
 	// assertion that is NOT covered by a recorded finding is still reported
@@ -202,6 +206,9 @@ func (h *HarnessRun) Run(workers int) error {
 	var qmu sync.Mutex
 	cond := sync.NewCond(&qmu)
 	queue := []workItem{{}}
+	if h.replayPath != nil {
+		queue = []workItem{{prefix: h.replayPath}}
+	}
 	active := 0
 	var firstErr error
 	var wg sync.WaitGroup
@@ -248,7 +255,9 @@ func (h *HarnessRun) Run(workers int) error {
 					firstErr = err
 				}
 				for _, a := range alts {
-					queue = append(queue, workItem{prefix: a})
+					if h.replayPath == nil {
+						queue = append(queue, workItem{prefix: a})
+					}
 				}
 				h.mu.Lock()
 				np := h.paths
@@ -269,6 +278,7 @@ func (h *HarnessRun) runPath(fn *ssa.Function, prefix []int, sol *Solver) (alts 
 	tt := NewTermTable()
 	ex := &Exec{P: h.P, H: h, tt: tt, sol: sol, pre: prefix, globals: map[*ssa.Global]*Obj{}, inited: map[*ssa.Package]bool{}}
 	ex.W = newWorld(ex)
+	tt.pins = h.pins
 	sol.Begin(tt)
 	status := "ok"
 	var pe *pathEnd
